@@ -10,7 +10,7 @@ import time
 import collections
 
 from mc import harness, probes
-from mc.chartgen import skeletons, flatten, add_scheme_P, describe, build_api
+from mc.chartgen import skeletons, flatten, add_scheme_P, describe, build_api, build_api_moved
 from mc.refmodel import Model
 
 from sismic.interpreter import Interpreter
@@ -52,10 +52,11 @@ def queue_situation(it, sit):
 def work(task):
     tree, scheme, k, prios = task[:4]
     skip = task[4] if len(task) > 4 else None
+    moved = len(task) > 5 and task[5] == 'moved'
     spec = flatten(tree, scheme, probes=False)
     spec, navs = add_scheme_P(spec, prios=prios, skip=skip)
     m = Model(spec)
-    sc, objs = build_api(spec)
+    sc, objs = (build_api_moved if moved else build_api)(spec)
     tid_of = {id(o): i for i, o in enumerate(objs)}
     res = {'states': 0, 'transitions': 0, 'outcomes': collections.Counter(), 'violations': [],
            'desc': describe(spec), 'task': task, 'nviol': 0}
@@ -202,6 +203,12 @@ def run(tier, seed):
     for tree in skeletons(3, 5 if tier == 'quick' else 6, history=False, final=False):
         for skip in (0, 1):
             tasks.append((tree, 'asc', 2, (0, 1), skip))
+    # the same charts restructured with move_state (nested composite states first live under the root): selection
+    # relies on depths and ancestors that the statechart must keep right however it was built
+    for tree in skeletons(4, 5 if tier == 'quick' else 6, history=False, final=False):
+        if repr(tree).count("'C'") + repr(tree).count("'O'") >= 3:
+            for scheme in ('asc', 'desc'):
+                tasks.append((tree, scheme, 2, (0, 1), None, 'moved'))
     tasks.sort(key=lambda t: -len(repr(t[0])))
     results = harness.pmap(work, tasks, chunksize=1)
     agg = harness.Agg()
@@ -242,7 +249,7 @@ def replay(data):
     spec = flatten(tree, scheme, probes=False)
     spec, navs = add_scheme_P(spec, prios=prios, skip=task[4] if len(task) > 4 else None)
     m = Model(spec)
-    sc, objs = build_api(spec)
+    sc, objs = (build_api_moved if len(task) > 5 and task[5] == 'moved' else build_api)(spec)
     it = Interpreter(sc, initial_context=probes.CONTEXT())
     it.execute_once()
     for nv in data['nav']:
